@@ -221,10 +221,20 @@ pub struct UseFamily {
 fn use_spellings() -> Vec<(Vec<u8>, String)> {
     let mut v = Vec::new();
     let ws = ["", " ", "\t", "\n", "  ", " \t\n"];
-    let names = ["d", "my_db", "d\u{e9}", "a b", "a;b", "x`y"];
+    let mut names: Vec<String> = ["d", "my_db", "d\u{e9}", "a b", "a;b", "x`y"].iter().map(|x| x.to_string()).collect();
+    // names that end (and start) with every character U+00C0..U+00FF (last bytes 0x80..0xBF, among
+    // them bytes that are white space in Latin-1), a Cyrillic, a 3-byte and a 4-byte character
+    for c in (0xC0u32..=0xFF).filter_map(char::from_u32).chain(['\u{445}', '\u{420}', '\u{2026}', '\u{3000}', '\u{1F600}']) {
+        names.push(format!("n{}", c));
+        names.push(format!("{}n", c));
+    }
     for kw in ["USE", "use"] {
         for pre in ws {
-            for name in names {
+            for name in names.iter().map(|x| x.as_str()) {
+                // the long tail of non-ASCII names runs with the plain spellings only
+                if name.len() > 2 && !name.is_ascii() && name != "d\u{e9}" && (!pre.is_empty() || kw == "use") {
+                    continue;
+                }
                 for quoted in [false, true] {
                     if !quoted && (name.contains(' ') || name.contains(';') || name.contains('`')) {
                         continue;
@@ -331,6 +341,55 @@ impl Family for IdPairs {
     }
 }
 
+
+/// text whose multi-byte characters sit at every byte offset: QUERY / PREPARE / INIT_DB / USE
+/// texts built from an ASCII prefix of every length 0..12, a 2-, 3- or 4-byte character, and an
+/// ASCII rest - any code that slices the text at a fixed byte offset meets a character there
+pub struct Utf8Offsets;
+impl Utf8Offsets {
+    pub fn texts() -> Vec<(u8, String)> {
+        let mut v = Vec::new();
+        for base in ["SELECT 1 FROM t WHERE x", "USE database_name", "use `quoted`;", "-- comment text", "select @@version_comment limit 1"] {
+            for k in 0..=12usize.min(base.len()) {
+                for c in ["\u{e9}", "\u{20ac}", "\u{1F600}", "\u{a0}", "\u{85}"] {
+                    let t = format!("{}{}{}", &base[..k], c, &base[k..]);
+                    v.push((COM_QUERY, t.clone()));
+                    if base.starts_with("SELECT") {
+                        v.push((COM_STMT_PREPARE, t.clone()));
+                        v.push((COM_INIT_DB, t));
+                    }
+                }
+            }
+        }
+        v
+    }
+}
+impl Family for Utf8Offsets {
+    fn ambient(&self, idx: u64) -> u64 {
+        crate::engine::rot(idx)
+    }
+    fn name(&self) -> String {
+        "multi-byte-characters-at-every-offset".into()
+    }
+    fn len(&self) -> u64 {
+        Self::texts().len() as u64
+    }
+    fn run(&self, idx: u64, st: &mut Stats) -> Result<(), Violation> {
+        let (cmd, t) = Self::texts()[idx as usize].clone();
+        st.nontrivial += 1;
+        st.bump("utf8_offsets");
+        let cmds = vec![with_byte(cmd, t.as_bytes()), vec![COM_PING], with_byte(COM_QUERY, b"after")];
+        check_routing(&cmds, st).map_err(|mut v| {
+            v.msg = format!("command {:#04x} with text {:?}: {}", cmd, t, v.msg);
+            v
+        })
+    }
+    fn describe(&self, idx: u64) -> J {
+        let (cmd, t) = Self::texts()[idx as usize].clone();
+        json!({"command": cmd, "text": t})
+    }
+}
+
 pub fn build(quick: bool) -> Check {
     let alpha = alphabet();
     let n = alpha.len();
@@ -345,10 +404,11 @@ pub fn build(quick: bool) -> Check {
     }
     families.push(Box::new(UseFamily { spellings: use_spellings() }));
     families.push(Box::new(IdPairs));
+    families.push(Box::new(Utf8Offsets));
     Check {
         id: "C02",
         level: "model_checking",
-        rule: format!("all command sequences of length <= {} over an alphabet of {} commands (near-miss prefixes, invalid UTF-8, statement ids at width boundaries, COM_INIT_DB names with edge whitespace/backticks/semicolons, quit mid-sequence), pipelined on one connection; every USE spelling of the stated grammar in 3 positions; every ordered pair of statement ids from a 24-value palette prepared, executed and closed in both orders. Oracle: routing model (exact callback log, run_on result, strict decode of all replies). Non-trivial = sequence mixes at least two command kinds.", if quick {4} else {5}, n),
+        rule: format!("all command sequences of length <= {} over an alphabet of {} commands (near-miss prefixes, invalid UTF-8, statement ids at width boundaries, COM_INIT_DB names with edge whitespace/backticks/semicolons, quit mid-sequence), pipelined on one connection; every USE spelling of the stated grammar in 3 positions; every ordered pair of statement ids from a 24-value palette prepared, executed and closed in both orders; USE names ending/starting with every character U+00C0..U+00FF and 3-/4-byte characters; query / prepare / init-db / USE texts with a multi-byte character at every byte offset 0..12. Oracle: routing model (exact callback log, run_on result, strict decode of all replies). Non-trivial = sequence mixes at least two command kinds.", if quick {4} else {5}, n),
         assumptions: vec![
             "for text that is not valid UTF-8 the property only says it is never handed to the shim: both 'connection ends with an error' and 'command skipped' are accepted".into(),
             "mixed-case spellings (Select @@x, Use db) are not in the alphabet because the property does not say how they route".into(),
@@ -357,6 +417,6 @@ pub fn build(quick: bool) -> Check {
         exhaustive: true,
         caps_hit: vec![],
         families,
-        required: vec!["id_pairs", "sequences_with_invalid_utf8", "sequences_ending_in_error", "use_spellings_run"],
+        required: vec!["utf8_offsets", "id_pairs", "sequences_with_invalid_utf8", "sequences_ending_in_error", "use_spellings_run"],
     }
 }
